@@ -104,6 +104,34 @@ func stringEnumerate(obj *object, all bool, each func(string) bool) {
 	objectEnumerate(obj, all, each)
 }
 
+// 15.5.5.2 with 8.12.9: the characters of a String object are own properties
+// that are neither writable nor configurable. They are not stored, so the
+// generic [[DefineOwnProperty]] would take them for absent and add a second
+// property of the same name.
+func stringDefineOwnProperty(obj *object, name string, descriptor property, throw bool) bool {
+	if index := stringToArrayIndex(name); index >= 0 {
+		if chr := stringAt(obj.stringValue(), int(index)); chr != stringAtNone {
+			if _, stored := obj.readProperty(name); !stored {
+				compatible := !descriptor.configurable() &&
+					(!descriptor.enumerateSet() || descriptor.enumerable()) &&
+					!descriptor.isAccessorDescriptor() &&
+					!(descriptor.writeSet() && descriptor.writable())
+				if value, ok := descriptor.value.(Value); compatible && ok {
+					compatible = sameValue(value, stringValue(string(chr)))
+				}
+				if compatible {
+					return true
+				}
+				if throw {
+					panic(obj.runtime.panicTypeError("Object.DefineOwnProperty: cannot redefine the character at %s", name))
+				}
+				return false
+			}
+		}
+	}
+	return objectDefineOwnProperty(obj, name, descriptor, throw)
+}
+
 func stringGetOwnProperty(obj *object, name string) *property {
 	if prop := objectGetOwnProperty(obj, name); prop != nil {
 		return prop
